@@ -683,7 +683,17 @@ func nodeNameRule(c *Check) {
 		if idx >= len(site.Common().Args) {
 			continue
 		}
-		for _, o := range resolveUp(p, site.Parent(), site.Common().Args[idx], 0) {
+		ups := resolveUp(p, site.Parent(), site.Common().Args[idx], 0)
+		nonZero := 0
+		for _, o := range ups {
+			if o.K != "zero" {
+				nonZero++
+			}
+		}
+		for _, o := range ups {
+			if o.K == "zero" && nonZero > 0 {
+				continue // the zero value of a bundle returned together with an error
+			}
 			n++
 			name := "node name given to the sshd processor in " + site.Parent().Name()
 			if o.K != "call" || o.Idx != 0 || o.R == nil {
